@@ -82,9 +82,47 @@ theorem cnt_foldl_remove_le (ids : List Id) : ∀ (m : ArgMap) (id : Id),
     simp only [List.foldl_cons]
     exact Nat.le_trans (ih _ _) (cnt_remove_le _ _ _)
 
+theorem cnt_dropEmptyGroups_le (c : Cmd) (o : Id) (m : ArgMap) (id : Id) : cnt (dropEmptyGroups c o m) id ≤ cnt m id := by
+  unfold dropEmptyGroups
+  generalize c.groupsForArg o = gs
+  induction gs generalizing m with
+  | nil => exact Nat.le_refl _
+  | cons g gs ih =>
+    simp only [List.foldl_cons]
+    split
+    · exact ih m
+    · exact Nat.le_trans (ih _) (cnt_remove_le _ _ _)
+
+theorem cnt_removeOverridden_le (c : Cmd) (m : ArgMap) (o id : Id) : cnt (removeOverridden c m o) id ≤ cnt m id := by
+  unfold removeOverridden
+  split
+  · exact Nat.le_trans (cnt_dropEmptyGroups_le c o _ id) (cnt_remove_le _ _ _)
+  · exact Nat.le_refl _
+
+/-- the overridden id itself is gone (when it was there at most once) -/
+theorem cnt_removeOverridden_self (c : Cmd) (m : ArgMap) (o : Id) (h : cnt m o ≤ 1) : cnt (removeOverridden c m o) o = 0 := by
+  unfold removeOverridden
+  split
+  · have h1 := cnt_dropEmptyGroups_le c o (ArgMap.remove o m) o
+    have h2 := cnt_remove_self m o
+    omega
+  · next hc =>
+    cases hcnt : cnt m o with
+    | zero => rfl
+    | succ k => exact absurd ((contains_iff_cnt m o).2 (by omega)) hc
+
+theorem cnt_foldl_removeOverridden_le (c : Cmd) (ids : List Id) : ∀ (m : ArgMap) (id : Id),
+    cnt (ids.foldl (removeOverridden c) m) id ≤ cnt m id := by
+  induction ids with
+  | nil => intro m id; simp
+  | cons o os ih =>
+    intro m id
+    simp only [List.foldl_cons]
+    exact Nat.le_trans (ih _ _) (cnt_removeOverridden_le c _ _ _)
+
 theorem cnt_removeOverrides_le (c : Cmd) (a : Arg) (m : ArgMap) (id : Id) : cnt (removeOverrides c a m) id ≤ cnt m id := by
   unfold removeOverrides
-  exact Nat.le_trans (cnt_foldl_remove_le _ _ _) (cnt_foldl_remove_le _ _ _)
+  exact Nat.le_trans (cnt_foldl_removeOverridden_le c _ _ _) (cnt_foldl_removeOverridden_le c _ _ _)
 
 theorem keys_update (m : ArgMap) (g : Id) (f : MatchedArg → MatchedArg) : (m.update g f).map Prod.fst = m.map Prod.fst := by
   induction m with
@@ -432,7 +470,7 @@ theorem overrides_removed (c : Cmd) (a : Arg) (m : ArgMap) (o : Id) (hne : (o ==
   unfold removeOverrides
   -- the first fold removes `o` (it is in `a.overrides`); later removals cannot bring it back
   have key : ∀ (ids : List Id) (m : ArgMap), ids.contains o = true → cnt m o ≤ 1 →
-      cnt (ids.foldl (fun acc x => ArgMap.remove x acc) m) o = 0 := by
+      cnt (ids.foldl (removeOverridden c) m) o = 0 := by
     intro ids
     induction ids with
     | nil => intro m h; simp at h
@@ -442,8 +480,8 @@ theorem overrides_removed (c : Cmd) (a : Arg) (m : ArgMap) (o : Id) (hne : (o ==
       by_cases hx : (x == o) = true
       · have : x = o := by simpa using hx
         subst this
-        have h1 := cnt_remove_self m x
-        have h2 := cnt_foldl_remove_le xs (ArgMap.remove x m) x
+        have h1 := cnt_removeOverridden_self c m x hc
+        have h2 := cnt_foldl_removeOverridden_le c xs (removeOverridden c m x) x
         omega
       · have hx' : (x == o) = false := by simpa using hx
         have hin' : xs.contains o = true := by
@@ -452,17 +490,17 @@ theorem overrides_removed (c : Cmd) (a : Arg) (m : ArgMap) (o : Id) (hne : (o ==
           · have h2 : o = x := by simpa using h
             rw [h2] at hx'; simp at hx'
           · exact h
-        exact ih _ hin' (by rw [cnt_remove_other _ _ _ hx']; exact hc)
+        exact ih _ hin' (Nat.le_trans (cnt_removeOverridden_le c m x o) hc)
   have h0 := key a.overrides m h huniq
-  have h1 := cnt_foldl_remove_le
-    (((a.overrides.foldl (fun acc x => ArgMap.remove x acc) m).ids).filter fun id => match c.find id with
+  have h1 := cnt_foldl_removeOverridden_le c
+    (((a.overrides.foldl (removeOverridden c) m).ids).filter fun id => match c.find id with
       | some ov => ov.overrides.contains a.id
-      | none => false) (a.overrides.foldl (fun acc x => ArgMap.remove x acc) m) o
+      | none => false) (a.overrides.foldl (removeOverridden c) m) o
   simp only at h1 ⊢
-  cases hcc : ArgMap.contains (List.foldl (fun acc o => ArgMap.remove o acc) (List.foldl (fun acc o => ArgMap.remove o acc) m a.overrides)
+  cases hcc : ArgMap.contains (List.foldl (removeOverridden c) (List.foldl (removeOverridden c) m a.overrides)
       (List.filter (fun id => match c.find id with
         | some ov => ov.overrides.contains a.id
-        | none => false) (List.foldl (fun acc o => ArgMap.remove o acc) m a.overrides).ids)) o with
+        | none => false) (List.foldl (removeOverridden c) m a.overrides).ids)) o with
   | false => rfl
   | true => have := (contains_iff_cnt _ _).1 hcc; omega
 
